@@ -20,7 +20,7 @@ use crate::{
     mutate::pick,
     props::c13::{extract, Nonces},
     refimpl::{Grp, Proof},
-    runner::{guarded, no_fixed, sub, CaseLog, PropertyDef, RunCtx, Sub, Tier},
+    runner::{guarded, setup, no_fixed, sub, CaseLog, PropertyDef, RunCtx, Sub, Tier},
     tapx::{challenges, tapped},
 };
 
@@ -202,21 +202,21 @@ fn build_runs<E: Engine>(spec: &HedgeSpec) -> Result<(Run<E>, Run<E>, Diff, Pede
         },
     }
     let pc = pedersen::<E>(cfg.ext, h_as_last, dup);
-    let params = RangeParameters::init(cfg.bits, cfg.cap, pc.clone()).map_err(|e| format!("{:?}", e))?;
+    let params = RangeParameters::init(cfg.bits, cfg.cap, pc.clone()).map_err(crate::runner::skip_err)?;
     let mk = |vals: &[u64], blinds: &[Vec<Scalar>], proms: &[Option<u64>], ctx: &CtxSpec| -> Result<Run<E>, String> {
         let cs: Vec<E::P> = vals
             .iter()
             .zip(blinds.iter())
-            .map(|(v, r)| E::commit(&pc, &Scalar::from(*v), r).map_err(|e| format!("{:?}", e)))
+            .map(|(v, r)| E::commit(&pc, &Scalar::from(*v), r).map_err(crate::runner::skip_err))
             .collect::<Result<_, _>>()?;
-        let st = RangeStatement::init(params.clone(), cs, proms.to_vec(), t.seed).map_err(|e| format!("{:?}", e))?;
+        let st = RangeStatement::init(params.clone(), cs, proms.to_vec(), t.seed).map_err(crate::runner::skip_err)?;
         let w = RangeWitness::init(
             vals.iter()
                 .zip(blinds.iter())
                 .map(|(v, r)| CommitmentOpening::new(*v, r.clone()))
                 .collect(),
         )
-        .map_err(|e| format!("{:?}", e))?;
+        .map_err(crate::runner::skip_err)?;
         Ok(Run { st, w, ctx: ctx.clone() })
     };
     let run1 = mk(&t.values, &t.blindings, &p1, &spec.base.ctx)?;
@@ -242,7 +242,7 @@ pub fn oracle_f(_ctx: &RunCtx, spec: &HedgeSpec, log: &mut CaseLog) -> Result<()
     };
     let prove = |r: &Run<F>| -> Result<(Vec<u8>, Nonces), String> {
         let (p, ev) = tapped(|| guarded(|| F::prove(&mut r.ctx.transcript(), &r.st, &r.w, &mut spec.base.rng.make())));
-        let p = p?.map_err(|e| format!("prover refused a valid witness: {:?}", e))?;
+        let p = setup(p, "the prover refused or panicked on a valid witness (C01's subject)")?;
         // the construction is accepted by the library
         guarded(|| F::verify(&mut [r.ctx.transcript()], &[r.st.clone()], &[p.clone()], VerifyAction::VerifyOnly))?
             .map_err(|e| format!("proof under (possibly degenerate) generators rejected: {:?}", e))?;
@@ -261,13 +261,13 @@ pub fn oracle_f(_ctx: &RunCtx, spec: &HedgeSpec, log: &mut CaseLog) -> Result<()
             .values
             .iter()
             .zip(other.iter())
-            .map(|(v, r)| F::commit(&pc, &Scalar::from(*v), r).map_err(|e| format!("{:?}", e)))
+            .map(|(v, r)| F::commit(&pc, &Scalar::from(*v), r).map_err(crate::runner::skip_err))
             .collect::<Result<_, _>>()?;
         let mut proms = run1.st.minimum_value_promises.clone();
         proms[0] = Some(t.values[0] + 1);
         if let Ok(st_bad) = RangeStatement::init(run1.st.generators.clone(), cs, proms, t.seed) {
             let w_bad = RangeWitness::init(t.values.iter().zip(other.iter()).map(|(v, r)| CommitmentOpening::new(*v, r.clone())).collect())
-                .map_err(|e| format!("{:?}", e))?;
+                .map_err(crate::runner::skip_err)?;
             if guarded(|| F::prove(&mut run1.ctx.transcript(), &st_bad, &w_bad, &mut spec.base.rng.make()))?.is_ok() {
                 return Err("prover accepted a promise above the value".into());
             }
@@ -333,10 +333,11 @@ pub fn oracle_r(_ctx: &RunCtx, spec: &HedgeSpec, log: &mut CaseLog) -> Result<()
         return Ok(());
     }
     let prove = |r: &Run<R>| -> Result<Vec<u8>, String> {
-        let p = guarded(|| R::prove(&mut r.ctx.transcript(), &r.st, &r.w, &mut spec.base.rng.make()))?
-            .map_err(|e| format!("prover refused a valid witness: {:?}", e))?;
-        guarded(|| R::verify(&mut [r.ctx.transcript()], &[r.st.clone()], &[p.clone()], VerifyAction::VerifyOnly))?
-            .map_err(|e| format!("proof rejected: {:?}", e))?;
+        let p = setup(guarded(|| R::prove(&mut r.ctx.transcript(), &r.st, &r.w, &mut spec.base.rng.make())), "the prover refused or panicked on a valid witness (C01's subject)")?;
+        setup(
+            guarded(|| R::verify(&mut [r.ctx.transcript()], &[r.st.clone()], &[p.clone()], VerifyAction::VerifyOnly)),
+            "the honest proof is rejected (C01's subject)",
+        )?;
         Ok(p.to_bytes())
     };
     let b1 = prove(&run1)?;
@@ -346,8 +347,8 @@ pub fn oracle_r(_ctx: &RunCtx, spec: &HedgeSpec, log: &mut CaseLog) -> Result<()
             return Err("identical runs (same inputs, same RNG stream) produced different proofs".into());
         }
     } else if t.seed.is_none() {
-        let p1 = Proof::parse_layout(&b1).map_err(|e| format!("{:?}", e))?;
-        let p2 = Proof::parse_layout(&b2).map_err(|e| format!("{:?}", e))?;
+        let p1 = Proof::parse_layout(&b1).map_err(crate::runner::skip_err)?;
+        let p2 = Proof::parse_layout(&b2).map_err(crate::runner::skip_err)?;
         let mut same = vec![];
         if p1.a == p2.a {
             same.push("A".to_string());
@@ -375,8 +376,8 @@ pub fn oracle_r(_ctx: &RunCtx, spec: &HedgeSpec, log: &mut CaseLog) -> Result<()
             ));
         }
     } else {
-        let p1 = Proof::parse_layout(&b1).map_err(|e| format!("{:?}", e))?;
-        let p2 = Proof::parse_layout(&b2).map_err(|e| format!("{:?}", e))?;
+        let p1 = Proof::parse_layout(&b1).map_err(crate::runner::skip_err)?;
+        let p2 = Proof::parse_layout(&b2).map_err(crate::runner::skip_err)?;
         if p1.b == p2.b {
             return Err(format!("with a seed, B repeats across runs differing in {} (r, s shared)", diff.kind()));
         }
@@ -445,7 +446,7 @@ pub fn public_oracle(_ctx: &RunCtx, spec: &HedgeSpec, log: &mut CaseLog) -> Resu
     let start = t.transcript();
     let mut tr = start.clone();
     let (p, ev) = tapped(|| guarded(|| F::prove(&mut tr, &t.st, &t.w, &mut spec.base.rng.make())));
-    let p = p?.map_err(|e| format!("prover refused a valid witness: {:?}", e))?;
+    let p = setup(p, "the prover refused or panicked on a valid witness (C01's subject)")?;
     let nonces = extract(&p.to_bytes(), &challenges(&ev), &g_ids, cfg.bits, None)?;
     // adversary
     let mut adv = start;
